@@ -630,6 +630,39 @@ def eval_arith(e, env):
     raise ValueError(k)
 
 
+def arith_magnitude(e, env):
+    """the largest |numerator| or denominator among the values of all sub-expressions (None if some value is undefined):
+    the generated programs keep it below 2^28, far from the overflow of smt::I (the range clause of C15)"""
+    k = e[0]
+    v = eval_arith(e, env)
+    if v is None:
+        return None
+    m = max(abs(v.numerator), v.denominator)
+    kids = [x for x in e[1:] if isinstance(x, tuple)] + [y for x in e[1:] if isinstance(x, list) for y in x if isinstance(y, tuple)]
+    for x in kids:
+        if x[0] in ("bool",) or (x[0] == "id" and x[1][0] not in env):
+            continue
+        mk = arith_magnitude(x, env) if not is_bool_expr(x) else bool_magnitude(x, env)
+        if mk is None:
+            return None
+        m = max(m, mk)
+    return m
+
+
+def bool_magnitude(e, aenv):
+    k = e[0]
+    if k in ("bool",) or k == "id":
+        return 0
+    m = 0
+    kids = [x for x in e[1:] if isinstance(x, tuple)] + [y for x in e[1:] if isinstance(x, list) for y in x if isinstance(y, tuple)]
+    for x in kids:
+        mk = bool_magnitude(x, aenv) if is_bool_expr(x) else arith_magnitude(x, aenv)
+        if mk is None:
+            return None
+        m = max(m, mk)
+    return m
+
+
 def gen_bool(rng, depth, bvars, avars):
     """boolean formula over boolean variables, constants and relations between (linear) arithmetic expressions"""
     if depth <= 0 or rng.random() < 0.2:
